@@ -21,6 +21,7 @@ MODULES = {
     "C08": "c08_species",
     "C09": "c09_index",
     "C10": "c10_symbols",
+    "C11": "c11_grains",
     "C12": "c12_expr",
     "C13": "c13_modifiers",
     "C14": "c14_network",
